@@ -119,6 +119,9 @@ type Spelling struct {
 	Unit    string // "\t" or k spaces
 	Bullets []byte // one of - * + per line (cycled if shorter)
 	Heading bool   // roots written as "# name"
+	// ListRootsFirst (with Heading): the first k roots are written as list items, only the later ones as headings
+	// (after a heading every column-0 item belongs to it, so list roots can only come first)
+	ListRootsFirst int
 	Gaps    []int  // len n+1 (cycled/zero if shorter): 0 nothing, 1 empty line, 2 whitespace-only line, 3 / 4 runs of two / three blank lines
 	CRLF    bool
 	NoFinal bool // no newline after the last line
@@ -160,13 +163,18 @@ func Spell(d []int, names []string, sp Spelling) string {
 			lines = append(lines, "    ")
 		}
 	}
+	rootNo, underHeading := 0, false
 	for i, lv := range d {
 		gap(i)
 		b := byte('-')
 		if len(sp.Bullets) > 0 {
 			b = sp.Bullets[i%len(sp.Bullets)]
 		}
-		if sp.Heading {
+		if lv == 1 {
+			rootNo++
+			underHeading = sp.Heading && rootNo > sp.ListRootsFirst
+		}
+		if underHeading {
 			if lv == 1 {
 				lines = append(lines, "# "+names[i])
 			} else {
